@@ -36,3 +36,12 @@ func init() {
 		}
 	})
 }
+
+// `driver bigroots-try`: developer aid - only the big-root-block phase of C10
+func init() {
+	register("bigroots-try", "other", func(r *evid.Run) {
+		pool := workerPool(r, 4)
+		defer pool.Close()
+		bigRoots(r, pool)
+	})
+}
